@@ -1,8 +1,41 @@
-(* C12 — statements are added as the proofs land (see DESIGN.md section 6). *)
-From Coq Require Import String Ascii List.
-From Bkl Require Import Model.Value Model.Str Proofs.StrProofs.
+(* C12 — $repeat expands to exactly n indexed copies (cartesian product for named counts).
+   Statements only; proofs in Proofs/RepeatProofs.v.
+   [range n] = 0..n-1; [lex counts] = all index combinations in lexicographic order of the (sorted) names;
+   [bind_idx idx ec] binds $repeat:<name> for every (name, index) of idx. *)
+From Coq Require Import String Ascii List ZArith.
+From Bkl Require Import Model.Value Model.Merge Model.Eval Proofs.RepeatProofs.
 Import ListNotations.
+Local Open Scope string_scope.
+Local Open Scope list_scope.
 
-Theorem C12_placeholder_unescape : forall s, unescape (escape s) = s.
-Proof. exact unescape_escape. Qed.
-Print Assumptions C12_placeholder_unescape.
+(* $repeat: n yields exactly n copies in index order with $repeat bound to 0..n-1 (none for n <= 0) *)
+Theorem C12_doc_int : forall d ec n,
+  repeat_gen d ec (VInt n) = Ok (map (fun i => (d, insert "$repeat" (VInt i) ec)) (range n)) /\
+  range n = map Z.of_nat (seq 0 (Z.to_nat n)) /\ List.length (range n) = Z.to_nat n.
+Proof. intros d ec n. split; [apply repeat_gen_int|]. split; [apply range_spec|apply range_length]. Qed.
+Print Assumptions C12_doc_int.
+
+(* a map of named counts yields the full cartesian product, each combination exactly once, in lexicographic order *)
+Theorem C12_doc_named : forall d ec rs ics, int_counts rs = Some ics ->
+  repeat_gen d ec (VMap rs) =
+    Ok (map (fun idx => (d, bind_idx idx (fold_left (fun acc kv => insert ("$repeat." ++ fst kv)%string (snd kv) acc) rs ec))) (lex ics)).
+Proof. exact repeat_gen_named. Qed.
+Print Assumptions C12_doc_named.
+
+Theorem C12_product_size : forall ics, List.length (lex ics) = fold_right (fun nc acc => Z.to_nat (snd nc) * acc) 1 ics.
+Proof. exact lex_length. Qed.
+Print Assumptions C12_product_size.
+
+(* a count that is not an integer is an error *)
+Theorem C12_not_int : forall d ec v, match v with VInt _ | VMap _ => False | _ => True end ->
+  repeat_gen d ec v = Err EInvalidRepeat.
+Proof. exact repeat_gen_not_int. Qed.
+Print Assumptions C12_not_int.
+
+Theorem C12_named_not_int : forall d ec rs, int_counts rs = None -> repeat_gen d ec (VMap rs) = Err EInvalidRepeat.
+Proof. exact repeat_gen_named_not_int. Qed.
+Print Assumptions C12_named_not_int.
+
+Example C12_lex_example : lex [("x", 2%Z); ("y", 2%Z)] =
+  [[("x", 0%Z); ("y", 0%Z)]; [("x", 0%Z); ("y", 1%Z)]; [("x", 1%Z); ("y", 0%Z)]; [("x", 1%Z); ("y", 1%Z)]].
+Proof. reflexivity. Qed.
